@@ -86,6 +86,15 @@ func Main() {
 	}
 }
 
+// outDir is where evidence and replays go: VerifDir, unless VERIF_OUT redirects them (trial runs against a
+// scratch copy of the repository must not overwrite the evidence of the real tree).
+func outDir() string {
+	if d := os.Getenv("VERIF_OUT"); d != "" {
+		return d
+	}
+	return VerifDir
+}
+
 func envOr(k, d string) string {
 	if v := os.Getenv(k); v != "" {
 		return v
@@ -399,7 +408,7 @@ func loadKnown(id string) map[string]string {
 }
 
 func writeReplay(id string, v *Violation) string {
-	dir := filepath.Join(VerifDir, "replays", id)
+	dir := filepath.Join(outDir(), "replays", id)
 	os.MkdirAll(dir, 0o755) //nolint:errcheck
 	b, _ := json.MarshalIndent(v, "", " ")
 	h := sha256.Sum256([]byte(v.Signature + "\x00" + oneLine(v.Input)))
@@ -514,7 +523,7 @@ func writeEvidence(c *Check, tier string, seed int64, m *Result, wall float64, n
 		"wall_s":      wall,
 		"violations":  nviol,
 	}
-	dir := filepath.Join(VerifDir, "evidence")
+	dir := filepath.Join(outDir(), "evidence")
 	os.MkdirAll(dir, 0o755) //nolint:errcheck
 	b, _ := json.MarshalIndent(ev, "", " ")
 	os.WriteFile(filepath.Join(dir, c.ID+".json"), b, 0o644) //nolint:errcheck
